@@ -19,7 +19,8 @@
 EXTENDS Integers, Sequences, FiniteSets
 
 CONSTANTS T8,          \* the "fewer than 8 labels" threshold (8 in the code; shrunk in exhaustive runs), >= 3
-          CF03Fixed    \* FALSE: Ord::cmp as in the tree today.  TRUE: with the `2 =>` arm of notes/c03_fix_CF03.diff
+          CF03Fixed    \* TRUE: Ord::cmp as in the tree today (with the `2 =>` arm added by the fix of CF03, /repo 9973904).
+                       \* FALSE: Ord::cmp before that fix (no arm for two labels) - kept to study / re-detect the defect
 
 LT == -1
 EQ == 0
@@ -66,15 +67,15 @@ HashSeqK(p) ==
 (* ---------------------------------------------------------------- PartialEq::eq *)
 SeqAllEq(sa, sb) == \A i \in 1..Len(sa) : LabelEq(sa[i], sb[i])
 EqK(p, q) ==
-  LET a == p.labels
-      b == q.labels
-      n == Len(a)
+  LET la == p.labels
+      lb == q.labels
+      n == Len(la)
   IN IF p.name # q.name THEN FALSE
-     ELSE IF Len(a) # Len(b) THEN FALSE
+     ELSE IF Len(la) # Len(lb) THEN FALSE
      ELSE CASE n = 0 -> TRUE
-            [] n = 1 -> LabelEq(a[1], b[1])
-            [] n = 2 -> IF LabelEq(a[1], b[1]) THEN LabelEq(a[2], b[2])
-                        ELSE IF LabelEq(a[1], b[2]) THEN LabelEq(a[2], b[1])
+            [] n = 1 -> LabelEq(la[1], lb[1])
+            [] n = 2 -> IF LabelEq(la[1], lb[1]) THEN LabelEq(la[2], lb[2])
+                        ELSE IF LabelEq(la[1], lb[2]) THEN LabelEq(la[2], lb[1])
                         ELSE FALSE
             [] n > 2 /\ n < T8 -> SeqAllEq(SmallSorted(p), SmallSorted(q))
             [] OTHER -> SeqAllEq(LargeSorted(p), LargeSorted(q))
@@ -84,18 +85,18 @@ EqK(p, q) ==
 SeqLexCmp(sa, sb) ==
   LET D == {i \in 1..Len(sa) : LabelCmp(sa[i], sb[i]) # EQ}
   IN IF D = {} THEN EQ ELSE LabelCmp(sa[SetMin(D)], sb[SetMin(D)])
-(* proposed repair (CF03Fixed): two labels are compared in full-label order, as the hash does *)
+(* `2 =>`: the two labels are compared in full-label (key, value) order, as key_hasher_impl orders them *)
 Pair2(ls) == IF LabelCmp(ls[1], ls[2]) = GT THEN <<ls[2], ls[1]>> ELSE ls
 CmpK(p, q) ==
-  LET a == p.labels
-      b == q.labels
-      n == Len(a)
-      first == IF StrCmp(p.name, q.name) # EQ THEN StrCmp(p.name, q.name) ELSE IntCmp(Len(a), Len(b))   \* (&name, len) tuple
+  LET la == p.labels
+      lb == q.labels
+      n == Len(la)
+      first == IF StrCmp(p.name, q.name) # EQ THEN StrCmp(p.name, q.name) ELSE IntCmp(Len(la), Len(lb))   \* (&name, len) tuple
   IN IF first # EQ THEN first
      ELSE CASE n = 0 -> EQ
-            [] n = 1 -> LabelCmp(a[1], b[1])
-            [] n = 2 /\ CF03Fixed -> SeqLexCmp(Pair2(a), Pair2(b))
-            [] n > 1 /\ ~(n = 2 /\ CF03Fixed) /\ n < T8 -> SeqLexCmp(SmallSorted(p), SmallSorted(q))     \* no `2 =>` arm today
+            [] n = 1 -> LabelCmp(la[1], lb[1])
+            [] n = 2 /\ CF03Fixed -> SeqLexCmp(Pair2(la), Pair2(lb))
+            [] n > 1 /\ ~(n = 2 /\ CF03Fixed) /\ n < T8 -> SeqLexCmp(SmallSorted(p), SmallSorted(q))     \* before the fix: two labels took this arm
             [] OTHER -> SeqLexCmp(LargeSorted(p), LargeSorted(q))
 
 (* on raw keys *)
@@ -108,29 +109,30 @@ CEqK(ka, p, kb, q) == ka = kb /\ EqK(p, q)
 CCmpK(ka, p, kb, q) == IF ka # kb THEN IntCmp(ka, kb) ELSE CmpK(p, q)
 
 -----------------------------------------------------------------------------
-(* The property, stated over arbitrary relations E (==), C (cmp), H (same hash input) so that the
+(* The property, stated over arbitrary relations EE (==), CC (cmp), HH (same hash input) so that the
    exhaustive runs (tables) and the trace validation (logged keys) use the same sentences. *)
-LawEqRefl(E(_, _), a) == E(a, a)
-LawEqSym(E(_, _), a, b) == E(a, b) <=> E(b, a)
-LawEqTrans(E(_, _), a, b, c) == (E(a, b) /\ E(b, c)) => E(a, c)
-LawCmpRefl(C(_, _), a) == C(a, a) = EQ
-LawCmpAntisym(C(_, _), a, b) == C(a, b) \in {LT, EQ, GT} /\ C(a, b) = -C(b, a)
-LawCmpTrans(C(_, _), a, b, c) ==
-  (C(a, b) <= 0 /\ C(b, c) <= 0) => (C(a, c) <= 0 /\ ((C(a, b) < 0 \/ C(b, c) < 0) => C(a, c) < 0))
-LawEqCmp(E(_, _), C(_, _), a, b) == E(a, b) <=> (C(a, b) = EQ)
-LawEqHash(E(_, _), H(_, _), a, b) == E(a, b) => H(a, b)
+LawEqRefl(EE(_, _), a) == EE(a, a)
+LawEqSym(EE(_, _), a, b) == EE(a, b) <=> EE(b, a)
+LawEqTrans(EE(_, _), a, b, c) == (EE(a, b) /\ EE(b, c)) => EE(a, c)
+LawCmpRefl(CC(_, _), a) == CC(a, a) = EQ
+LawCmpAntisym(CC(_, _), a, b) == CC(a, b) \in {LT, EQ, GT} /\ CC(a, b) = -CC(b, a)
+LawCmpTrans(CC(_, _), a, b, c) ==
+  (CC(a, b) <= 0 /\ CC(b, c) <= 0) => (CC(a, c) <= 0 /\ ((CC(a, b) < 0 \/ CC(b, c) < 0) => CC(a, c) < 0))
+LawEqCmp(EE(_, _), CC(_, _), a, b) == EE(a, b) <=> (CC(a, b) = EQ)
+LawEqHash(EE(_, _), HH(_, _), a, b) == EE(a, b) => HH(a, b)
 
-Range(s) == {s[i] : i \in DOMAIN s}
+Elems(s) == {s[i] : i \in DOMAIN s}
 Count(s, x) == Cardinality({i \in DOMAIN s : s[i] = x})
-SameBag(s, t) == Len(s) = Len(t) /\ \A x \in Range(s) \cup Range(t) : Count(s, x) = Count(t, x)
+SameBag(s, t) == Len(s) = Len(t) /\ \A x \in Elems(s) \cup Elems(t) : Count(s, x) = Count(t, x)
 DistinctNames(p) == \A i, j \in DOMAIN p.labels : i # j => p.labels[i][1] # p.labels[j][1]
 (* q supplies the labels of p in another order *)
 IsPerm(p, q) == p.name = q.name /\ SameBag(p.labels, q.labels)
-LawPerm(E(_, _), C(_, _), H(_, _), PermOf(_, _), a, b) == PermOf(a, b) => (E(a, b) /\ C(a, b) = EQ /\ H(a, b))
+LawPerm(EE(_, _), CC(_, _), HH(_, _), PP(_, _), a, b) == PP(a, b) => (EE(a, b) /\ CC(a, b) = EQ /\ HH(a, b))
 
-(* Named deviation CF03 (genuine defect): exactly two labels, both with the SAME label name and
-   different values, supplied in opposite orders.  `==` takes the pair as a multiset (true), `cmp` has
-   no arm for two labels and compares them in the name-stable order = the order supplied (not Equal). *)
+(* Named deviation CF03 (genuine defect, FIXED in /repo 9973904; only reachable with CF03Fixed = FALSE):
+   exactly two labels, both with the SAME label name and different values, supplied in opposite orders.
+   `==` takes the pair as a multiset (true), the old `cmp` had no arm for two labels and compared them in
+   the name-stable order = the order supplied (not Equal). *)
 DevCF03(p, q) ==
   /\ ~CF03Fixed
   /\ p.name = q.name
